@@ -97,6 +97,9 @@ func runC01(c *report.Ctx) {
 	p := c.P
 	ruleNoTxUnderUpdate(c, 8)
 	ruleReorgReachesNewTip(c)
+	ruleRollbackBeforeCursorMoves(c)
+	ruleBlockRecordKeepsOrder(c)
+	ruleBestHeightReadWhileParked(c) // an import that reads the tip before the follower is parked scans to a stale tip and declares the wallet ready
 	ruleEveryRelevantOutputCredited(c)
 	ruleMemoryTipFollowsPersistedTip(c)
 	c.Rule("background-selected-wallet-free", "no code the follower or the worker reaches consults the API's currently selected wallet: which wallet owns an output, and whether a record another wallet needs may be deleted, must not depend on what a client selected (a record deleted because its co-owner was not the selected wallet makes a later rollback of its block leave that wallet a phantom coin)", 1)
